@@ -211,15 +211,17 @@ func apkFamily() []apkShape {
 	dex := zmember{Name: "classes.dex", Deflate: true, Size: 8192, Seed: 6}
 	res := zmember{Name: "resources.arsc", Size: 1024, Seed: 7}
 	M := 1 << 20
+	mf := zmember{Name: "META-INF/MANIFEST.MF", Deflate: true, Raw: []byte(defaultManifest)}
 	out := []apkShape{
-		{ID: "small/1-deflated", Members: []zmember{man}},
-		{ID: "small/1-stored", Members: []zmember{res}},
-		{ID: "small/deflated+stored", Members: []zmember{man, res}},
-		{ID: "small/3-members", Members: []zmember{man, dex, res}},
-		{ID: "small/empty-member", Members: []zmember{man, {Name: "assets/empty", Size: 0}}},
+		{ID: "small/1-deflated", Members: []zmember{man, mf}},
+		{ID: "small/deflated+stored", Members: []zmember{man, mf, res}},
+		{ID: "small/stored-manifest+deflated", Members: []zmember{{Name: "AndroidManifest.xml", Size: 1709, Seed: 5}, mf, dex}},
+		{ID: "small/4-members", Members: []zmember{man, mf, dex, res}},
+		{ID: "small/empty-member", Members: []zmember{man, mf, {Name: "assets/empty", Size: 0}}},
+		{ID: "small/no-jar-manifest", Members: []zmember{man, res}},
 	}
 	for _, t := range []int{M - 1, M, M + 1, 2*M - 1, 2 * M, 2*M + 1, 2*M + 4097} {
-		out = append(out, apkShape{ID: fmt.Sprintf("boundary/section1=%d", t), Members: []zmember{man, res}, Target: t})
+		out = append(out, apkShape{ID: fmt.Sprintf("boundary/section1=%d", t), Members: []zmember{man, mf, res}, Target: t})
 	}
 	return out
 }
